@@ -74,12 +74,20 @@ def rule_arith(ctx, R):
     b, d = fn_lang(fb, N + "add")
     if R.anchor(b is not None, "add", "Num::add"):
         R.analyse(b.name)
-        any_(R, "add:definition", "a/b + c/d = (a*d + b*c)/(b*d), canonicalised; NaN if either operand is NaN", d, nan_guard(Seq("Num::optimize(%s)" % X, "RET(%s)" % X)), b.span)
+        XF = X.replace("Num::Num{", "Num::from_big_num(")[:-1] + ")"
+        any_(R, "add:definition", "a/b + c/d = (a*d + b*c)/(b*d), canonicalised; NaN if either operand is NaN", d, nan_guard(Seq("Num::optimize(%s)" % X, "RET(%s)" % X)) + nan_guard(Seq(XF, "RET(%s)" % XF)), b.span)
     Y = "Num::Num{MUL(P1.up,P2.up),MUL(P1.down,P2.down)}"
     b, d = fn_lang(fb, N + "mul")
     if R.anchor(b is not None, "mul", "Num::mul"):
         R.analyse(b.name)
-        any_(R, "mul:definition", "a/b * c/d = (a*c)/(b*d), canonicalised; NaN if either operand is NaN", d, nan_guard(Seq("Num::optimize(%s)" % Y, "RET(%s)" % Y)), b.span)
+        YF = Y.replace("Num::Num{", "Num::from_big_num(")[:-1] + ")"
+        any_(R, "mul:definition", "a/b * c/d = (a*c)/(b*d), canonicalised; NaN if either operand is NaN", d, nan_guard(Seq("Num::optimize(%s)" % Y, "RET(%s)" % Y)) + nan_guard(Seq(YF, "RET(%s)" % YF)), b.span)
+    # the canonicalising constructor the variants above may delegate to
+    b, d = fn_lang(fb, N + "from_big_num")
+    if R.anchor(b is not None, "from_big_num", "Num::from_big_num"):
+        R.analyse(b.name)
+        Z = "Num::Num{P1,P2}"
+        any_(R, "from_big_num:definition", "from_big_num(up, down) builds up/down and canonicalises it", d, [Seq("Num::optimize(%s)" % Z, "RET(%s)" % Z)], b.span)
     b, d = fn_lang(fb, N + "optimize")
     if R.anchor(b is not None, "optimize", "Num::optimize"):
         R.analyse(b.name)
